@@ -16,6 +16,7 @@ package main
 import (
 	"context"
 	"fmt"
+	"math"
 	"sync/atomic"
 
 	"github.com/bradenaw/juniper/iterator"
@@ -901,6 +902,65 @@ func checkEqual(a, b []int) *viol {
 	return nil
 }
 
+// checkPeekOnPeek: a Peekable that has already looked ahead is an iterator/stream like any other:
+// wrapping it again (WithPeek, or any combinator that peeks internally, like Runs) loses nothing.
+func checkPeekOnPeek(in []int) *viol {
+	atomic.AddInt64(&cases, 1)
+	ctx := context.Background()
+	for consumed := 0; consumed <= len(in); consumed++ {
+		for _, peeked := range []bool{false, true} {
+			p1 := iterator.WithPeek[int](&cIter{items: in})
+			p2 := stream.WithPeek[int](cStream{&cIter{items: in}})
+			for i := 0; i < consumed; i++ {
+				p1.Next()
+				p2.Next(ctx)
+			}
+			if peeked {
+				p1.Peek()
+				p2.Peek(ctx)
+			}
+			want := in[consumed:]
+			g1 := iterator.Collect[int](iterator.WithPeek[int](p1))
+			g2, err := stream.Collect[int](ctx, stream.WithPeek[int](p2))
+			if !eqInts(g1, want) || !eqInts(g2, want) || err != nil {
+				return &viol{"wrong-output/WithPeek", fmt.Sprintf("WithPeek over a Peekable of %v (%d consumed, peeked=%v) yields iterator %v, stream %v (%v), want %v", in, consumed, peeked, g1, g2, err, want)}
+			}
+			// the same through Runs, which peeks internally
+			p3 := iterator.WithPeek[int](&cIter{items: in})
+			for i := 0; i < consumed; i++ {
+				p3.Next()
+			}
+			if peeked {
+				p3.Peek()
+			}
+			var flat []int
+			runs := iterator.Runs[int](p3, func(a, b int) bool { return a == b })
+			for {
+				r, ok := runs.Next()
+				if !ok {
+					break
+				}
+				flat = append(flat, iterator.Collect(r)...)
+			}
+			if !eqInts(flat, want) {
+				return &viol{"wrong-output/Runs", fmt.Sprintf("Runs over a Peekable of %v (%d consumed, peeked=%v) flattens to %v, want %v", in, consumed, peeked, flat, want)}
+			}
+		}
+	}
+	// a reducer over First with the largest n there is
+	for _, n := range []int{math.MaxInt, math.MaxInt32} {
+		var g1 []int
+		if pp := vx.Catch(func() { g1 = iterator.Collect(iterator.First[int](&cIter{items: in}, n)) }); pp != nil {
+			return &viol{"panic/First", fmt.Sprintf("Collect(First(%v, %d)) panicked: %v", in, n, pp)}
+		}
+		g2, err := stream.Collect(ctx, stream.First[int](cStream{&cIter{items: in}}, n))
+		if !eqInts(g1, in) || !eqInts(g2, in) || err != nil {
+			return &viol{"wrong-output/First", fmt.Sprintf("Collect(First(%v, %d)): iterator %v, stream %v (%v)", in, n, g1, g2, err)}
+		}
+	}
+	return nil
+}
+
 func checkPeek(in []int) *viol {
 	atomic.AddInt64(&cases, 1)
 	// all Peek/Next patterns: before every Next, 0..2 Peeks
@@ -967,7 +1027,14 @@ func main() {
 	inputs := append(seqs(2, len2), seqs(3, len3)...)
 	// longer, structured inputs (lengths the exhaustive part cannot reach): all-equal, alternating,
 	// period 3, one long run in the middle, every length 9..40
+	lens := []int{}
 	for n := 9; n <= 40; n++ {
+		lens = append(lens, n)
+	}
+	// around 64, 128 and 256, where buffers, strides or cut-offs of an implementation would sit
+	lens = append(lens, 63, 64, 65, 66, 100, 127, 128, 129, 130, 200, 257)
+	for _, n := range lens {
+		n := n
 		mk := func(f func(i int) int) []int {
 			s := make([]int, n)
 			for i := range s {
@@ -982,6 +1049,15 @@ func main() {
 				}
 				return i % 2
 			}))
+		if n >= 63 {
+			// one long run with a single different item inside it (at a position past 64 where there is one)
+			inputs = append(inputs, mk(func(i int) int {
+				if i == n*3/4 {
+					return 2
+				}
+				return 1
+			}))
+		}
 	}
 	combs := intCombs(len2 + 2)
 	report := func(v *viol, replay any) {
@@ -1002,13 +1078,17 @@ func main() {
 			report(checkChunk(in, k), map[string]any{"combinator": "Chunk", "input": in, "size": k})
 		}
 		if len(in) > 8 {
-			return // the remaining checks are quadratic or worse; the long inputs are for the linear ones
+			// the remaining checks are quadratic or worse; the long inputs get the linear ones and Runs
+			// under plain equality
+			report(checkRuns(in, equivs[0]), map[string]any{"combinator": "Runs", "input": in, "classes": equivs[0]})
+			return
 		}
 		for _, e := range equivs {
 			report(checkRuns(in, e), map[string]any{"combinator": "Runs", "input": in, "classes": e})
 		}
 		report(checkReducersAndConstructors(in), map[string]any{"input": in})
 		report(checkPeek(in), map[string]any{"combinator": "WithPeek", "input": in})
+		report(checkPeekOnPeek(in), map[string]any{"combinator": "WithPeek over a Peekable", "input": in})
 		if len(in) <= 5 {
 			for k := 1; k <= 3; k++ {
 				if k == 3 && len(in) > 4 {
